@@ -291,6 +291,10 @@ def run(prog: Program, rep: Report, tier: str) -> None:
     for o in sub4.obligations:
         if "warm start" in o.construct or "skip_initial" in o.construct or "loop facts" in o.construct:
             rep.add("R08.8", o.func, f"[{o.rule}] {o.construct}", o.verdict == "ok" if o.verdict != "undecided" else None, o.what, o.loc)
+    from ..share import share
+
+    share(prog, rep, "C03", ("R03.2", "R03.3", "R03.4"), "R08.9", "a restart between two forcing frames is primed with the same interpolation as the uninterrupted run", 4)
+
 
 
 from ..selftest import Mut  # noqa: E402
